@@ -252,4 +252,30 @@ def run(ctx, prog):
                  'the recovered_from_fallback edge at %s only logs (no Err exit, no recovery_mode test, no comparison with '
                  'manifest.latest_snapshot_wal_seq): strict start-up continues from an older snapshot even when the log between it and the '
                  'newest snapshot was compacted away' % rec.loc_of(i) if not ok else 'fallback is refused / checked')
-    ctx.stat('functions_analysed', 5)
+    # ------------------------------------------------------------------ R6 the MANIFEST decoder refuses a damaged key
+    ctx.rule('C13.R6', 'MANIFEST is JSON without a checksum: the only thing that refuses a damaged field NAME (one flipped bit turns "wal_segments" into an unknown key, '
+                       'which serde skips) is the derived decoder\'s missing-field error. The generated visit_map of Manifest must raise missing_field for every field '
+                       'recovery decides on — version, wal_segments, last_updated (non-optional) — so a defaulted field (container- or field-level #[serde(default)]) '
+                       'fails: an empty segment list replays nothing and reports success')
+    vm = [b for b in prog.bodies.values() if 'persistence::Manifest>::deserialize::__Visitor' in b.id and b.id.endswith('::visit_map')]
+    if not vm:
+        ctx.missing('C13.R6', 'derived Deserialize visitor (visit_map) of persistence::Manifest')
+    for b in vm:
+        of6 = flow.Origin(b)
+        req = {}
+        for c in b.calls:
+            if c.callee and c.callee.endswith('de::missing_field') and c.args and c.dest is not None:
+                nm = flow.render(of6.of_operand(c.args[0])).strip('"')
+                req[nm] = b.locals[c.dest['l']]
+        for fld in ('version', 'wal_segments', 'last_updated'):
+            ok6 = fld in req and not req[fld].startswith('core::result::Result<core::option::Option<')
+            ctx.inst('C13.R6', 'persistence::Manifest', 'field %s is required by the decoder' % fld, ok6,
+                     ('missing_field("%s") raised when the key is absent' % fld) if ok6 else
+                     'the derived decoder does not raise missing_field("%s"): an absent or damaged key is replaced by a default (fields with an error exit: %s)' % (fld, sorted(req)))
+    mf = [b for b in prog.bodies.values() if b.short.endswith('persistence::Manifest::load')]
+    for b in mf:
+        de = [c for c in b.calls if c.callee and re.search(r'serde_json::(de::)?from_(slice|str|reader)$', c.callee)]
+        errs6 = flow.err_blocks(b)
+        okd = bool(de) and all((flow.failure_edges(b, c) or []) and not flow.ok_return_reachable(b, [e[1] for e in flow.failure_edges(b, c)]) for c in de)
+        ctx.inst('C13.R6', b.short, 'a decode error of MANIFEST is returned as an error', okd, 'decode calls: %d' % len(de))
+    ctx.stat('functions_analysed', len(set(i['key'].split(' | ')[1] for i in ctx.instances)))
